@@ -26,11 +26,13 @@ Inductive kind := Plain | Fixed | Varying.
    TTrkCC trivial but for a user-provided COPY constructor: trivially move-constructible (the
           move constructor is defaulted), trivially destructible;
    TTrkMC trivial but for a user-provided MOVE constructor: trivially copy-constructible;
+   TSw    trivially copyable in every respect (like TBlob) but with an ADL swap(T&, T&) that the
+          harness instruments: not IS_TRIVIALLY_SWAPPABLE, swapped object by object;
    TFlt   float / double (psz 4 / 8): a fundamental type that is NOT integral - == and < are
           those of IEEE-754 values (+0 == -0 although the bytes differ), so it takes none of
           the memcmp fast paths.  NaN bit patterns are outside the modelled domain
           (Proxy.fkey; C13 itself demands a reflexive ==) *)
-Inductive ty := TBlob | TUInt | TSInt | TU8 | TS8 | TByte | TTrk | TTrkC | TTrkMA | TTrkCA | TFlt | TTrkCC | TTrkMC.
+Inductive ty := TBlob | TUInt | TSInt | TU8 | TS8 | TByte | TTrk | TTrkC | TTrkMA | TTrkCA | TFlt | TTrkCC | TTrkMC | TSw.
 
 Record param := { pk : kind; psz : Z; pal : Z; pty : ty }.
 
